@@ -118,3 +118,13 @@ TABLE["C07"] = {
     "level_text": "Theorem C07_local: for every sequence of lifetimes evaluating the same call site and any counter value left behind, each lifetime's call outcomes and exit verdict equal those it would have alone, because installation resets the counter (fact extracted from will_execute by the translator: C07_source_resets); C07_without_reset_false documents the pre-fix defect. Correspondence: real macro over consecutive lifetimes in one process.",
     "level_note": "Trusted: Lean kernel, translator's pattern for the reset (counter.store(0, ..) before will_execute_raw).",
 }
+
+TABLE["C08"] = {
+    "pipelines": [{"name": "arms", "kind": "armgen"}],
+    "fail_keys": ["c08."],
+    "trusted_base": TB_COMMON + ["macro_rules! tries arms in order and a `$x:ty` fragment also matches `()` (assumed in FakeArm.matchesUse)", "runner/armgen.py generates the per-arm instantiations (one target per ABI, when/assign/returns with observable effects)", "a panic escaping an extern \"C\"/\"system\" fake aborts by language rule: predicted by the model, not judged"],
+    "rule": "every arm of macro_rules! fake found in macros.rs at check time (52 on this tree) x N in {0,1,2} for arms with `times`: one compiled instantiation each, driven through the script m^N x m m (m: argument satisfying `when`, x: not) in a forked child; per call the outcome class, returned value, out-parameter, assign and returns evaluation counters are compared with FakeArm.sem of that arm and with the common meaning refSem; exhaustive over the arm table",
+    "assumptions": ["rustc accepts/rejects instantiations as the real compiler does (it is the real compiler)"],
+    "level_text": "Theorems over the arm table regenerated from macros.rs on every run: every arm uses only bound metavariables (C08_scoped), fn-kind and return type of the generated fake and of the coercion equal the pattern's (C08_kind), every arm has the one common meaning for every call environment - all counter values and N (C08_meaning = general lemma allowed_meaning + decide over the table), counting verifier iff `times` (C08_verifier), no arm shadowed (C08_reach). The translator and rustc's side are validated by compiling and running one instantiation per arm and comparing call by call.",
+    "level_note": "Trusted: Lean kernel, translate/arms.py patterns (unrecognised text becomes `unknown` and fails C08_shapes), armgen instantiations.",
+}
